@@ -115,16 +115,16 @@ theorem vars_slots (w : Nat) (m : Mem) (F : Nat) : ∀ (params : List String) (v
           (by rw [contains_paramGam]; exact hy')).2.2
 
 section
-variable {p : Prog} {ck : Bool} {B : Nat}
+variable {p : Prog} {ck : Bool} {B : Nat} {dA : Nat}
 
 /-! ## pushing the arguments of a call -/
 theorem cArgs_ok (lib : Placed p B) (Γ : Gam) (env : Env) (F D : Nat) : ∀ (args : List E) (pc o : Nat) (m : Mem),
-    PlacedAt p pc (cArgs (cxOf p ck B) Γ pc o args) →
-    pc + (cArgs (cxOf p ck B) Γ pc o args).length ≤ B →
+    PlacedAt p pc (cArgs (cxOf p ck B dA) Γ pc o args) →
+    pc + (cArgs (cxOf p ck B dA) Γ pc o args).length ≤ B →
     Fr p m F D → VarsOK p.w Γ env m F o → args.all (boundE (Γ.map Prod.fst)) = true →
     pkArgs p.w o args ≤ D → p.w ≤ o →
     (∀ vs, evalArgs (256 ^ p.w) (8 * p.w) env args = some vs →
-      ∃ m', Reach (sphinx p) ⟨pc, m⟩ [] ⟨pc + (cArgs (cxOf p ck B) Γ pc o args).length, m'⟩ ∧
+      ∃ m', Reach (sphinx p) ⟨pc, m⟩ [] ⟨pc + (cArgs (cxOf p ck B dA) Γ pc o args).length, m'⟩ ∧
         Keep p.w m m' (F - o) ∧ SlotsAt p.w m' F (o + p.w) vs) ∧
     (evalArgs (256 ^ p.w) (8 * p.w) env args = none → ck = true →
       ∃ m', Reach (sphinx p) ⟨pc, m⟩ [] ⟨B + off_division_by_zero, m'⟩) := by
@@ -143,7 +143,7 @@ theorem cArgs_ok (lib : Placed p B) (Γ : Gam) (env : Env) (F D : Nat) : ∀ (ar
     simp only [cArgs] at hpl hB ⊢
     obtain ⟨hpl1, hpl2⟩ := hpl.append
     rw [List.length_append] at hB ⊢
-    have hp := pushE_ok (ck := ck) lib Γ env F D e pc o m hpl1 (by omega) fr hvars hb.1 (by omega) ho
+    have hp := pushE_ok (ck := ck) (dA := dA) lib Γ env F D e pc o m hpl1 (by omega) fr hvars hb.1 (by omega) ho
     have hoD : o + p.w ≤ D := by unfold pkPush at hpk; omega
     have hroom := fr.room
     refine ⟨fun vs hvs => ?_, fun hn hck => ?_⟩
@@ -157,7 +157,7 @@ theorem cArgs_ok (lib : Placed p B) (Γ : Gam) (env : Env) (F D : Nat) : ∀ (ar
           simp only [hev, hes, Option.bind_some, Option.pure_def, Option.some.injEq] at hvs
           subst hvs
           obtain ⟨m1, r1, k1, hval⟩ := hp.1 v hev
-          obtain ⟨m2, r2, k2, hsl⟩ := (ih (pc + (pushE (cxOf p ck B) Γ pc o e).length) (o + p.w) m1 hpl2 (by omega) (fr.keep k1)
+          obtain ⟨m2, r2, k2, hsl⟩ := (ih (pc + (pushE (cxOf p ck B dA) Γ pc o e).length) (o + p.w) m1 hpl2 (by omega) (fr.keep k1)
             (hvars.keep k1 (Nat.le_refl _) (by omega)) hb.2 (by omega) (by omega)).1 vs' hes
           refine ⟨m2, by simpa [Nat.add_assoc] using r1.trans r2, k1.trans' (k2.mono (by omega)), ?_, hsl⟩
           rw [k2.read _ _ (Nat.le_refl _)]; exact hval
@@ -169,7 +169,7 @@ theorem cArgs_ok (lib : Placed p B) (Γ : Gam) (env : Env) (F D : Nat) : ∀ (ar
         cases hes : evalArgs (256 ^ p.w) (8 * p.w) env es with
         | some vs' => simp [hev, hes] at hn
         | none =>
-          obtain ⟨m2, r2⟩ := (ih (pc + (pushE (cxOf p ck B) Γ pc o e).length) (o + p.w) m1 hpl2 (by omega) (fr.keep k1)
+          obtain ⟨m2, r2⟩ := (ih (pc + (pushE (cxOf p ck B dA) Γ pc o e).length) (o + p.w) m1 hpl2 (by omega) (fr.keep k1)
             (hvars.keep k1 (Nat.le_refl _) (by omega)) hb.2 (by omega) (by omega)).2 hes hck
           exact ⟨m2, by simpa using r1.trans r2⟩
 
@@ -193,15 +193,15 @@ theorem evalArgs_length {M n : Nat} {env : Env} : ∀ {args : List E} {vs : List
 /-- the operand `get_expr_value(r, e)` returns is an immediate or the register `r` -/
 theorem gV_reg (Γ : Gam) (env : Env) (m : Mem) (F D : Nat) (e : E) (pc o r : Nat)
     (hvars : VarsOK p.w Γ env m F o) (hb : boundE (Γ.map Prod.fst) e = true) (hpk : pkE p.w o e false ≤ D) (ho : p.w ≤ o) :
-    (∃ i, (gV (cxOf p ck B) Γ pc o r e).2 = .imm i) ∨ (gV (cxOf p ck B) Γ pc o r e).2 = .reg r := by
-  rcases hce : cE (cxOf p ck B) Γ pc o r e false with ⟨c, v0, p0⟩
-  have hloc := cE_loc (cxOf p ck B) Γ env m F D e pc o r false hvars hb hpk ho
+    (∃ i, (gV (cxOf p ck B dA) Γ pc o r e).2 = .imm i) ∨ (gV (cxOf p ck B dA) Γ pc o r e).2 = .reg r := by
+  rcases hce : cE (cxOf p ck B dA) Γ pc o r e false with ⟨c, v0, p0⟩
+  have hloc := cE_loc (cxOf p ck B dA) Γ env m F D e pc o r false hvars hb hpk ho
   rw [hce] at hloc
   obtain ⟨hp0, hloc0, _⟩ := hloc
   simp only [Bool.false_and] at hp0
   subst hp0
   simp only [Bool.false_eq_true, if_false] at hloc0
-  have := getOp_res (cxOf p ck B) hloc0
+  have := getOp_res (cxOf p ck B dA) hloc0
   simpa [gV, hce] using this
 
 theorem SlotsAt_shift (w : Nat) (m : Mem) (F o : Nat) : ∀ (vs : List Nat) (a : Nat),
@@ -237,8 +237,8 @@ theorem pkArgs_ge (w : Nat) : ∀ (args : List E) (o : Nat), o + args.length * w
 /-! ## the stack check at the start of a function -/
 theorem prologue_ok (lib : Placed p B) (fa : FAddr) (base : Nat) (params : List String) (body : S)
     (m : Mem) (F D : Nat) (fr : Fr p m F D)
-    (hpl : PlacedAt p base (funcCode (cxOf p ck B) fa base params body))
-    (hB : base + (funcCode (cxOf p ck B) fa base params body).length ≤ B)
+    (hpl : PlacedAt p base (funcCode (cxOf p ck B dA) fa base params body))
+    (hB : base + (funcCode (cxOf p ck B dA) fa base params body).length ≤ B)
     (hpkM : pkS p.w (entryOff p.w params) body < 256 ^ p.w) :
     (pkS p.w (entryOff p.w params) body ≤ F - 5 * p.w →
       Reach (sphinx p) ⟨base, m⟩ [] ⟨base + prologueLen ck, m⟩) ∧
@@ -263,7 +263,7 @@ theorem prologue_ok (lib : Placed p B) (fa : FAddr) (base : Nat) (params : List 
     simp only [List.length_append, List.length_cons, List.length_nil] at hB
     have s0 := step_j (m := m) c0 (ev_imm (base + 5))
     rw [show (base + 5) % p.M = base + 5 from Nat.mod_eq_of_lt (by unfold Prog.M; simp [stdlibLength] at hBM; omega)] at s0
-    have hfp : evalArg p ⟨base + 1, m⟩ (.st (cxOf p true B).fp) = some F := by
+    have hfp : evalArg p ⟨base + 1, m⟩ (.st (cxOf p true B dA).fp) = some F := by
       show evalArg p _ (.st p.w) = _
       rw [ev_st (by unfold Prog.M; omega) (by omega), fr.fp]
     have hap : evalArg p ⟨base + 1, m⟩ (.st 0) = some (5 * p.w) := by
@@ -272,15 +272,15 @@ theorem prologue_ok (lib : Placed p B) (fa : FAddr) (base : Nat) (params : List 
       (by show 3 * p.w < p.M; unfold Prog.M; omega) (by show 3 * p.w + p.w ≤ _; omega)
     rw [show (F + p.M - 5 * p.w % p.M) % p.M = F - 5 * p.w from by
       unfold Prog.M; exact sub_mod_small (by omega) hFM] at s1
-    generalize hm1 : m.writeLE (cxOf p true B).r1 p.w (F - 5 * p.w) = m1 at *
-    have hr1 : evalArg p ⟨base + 1 + 1, m1⟩ (.st (cxOf p true B).r1) = some (F - 5 * p.w) := by
+    generalize hm1 : m.writeLE (cxOf p true B dA).r1 p.w (F - 5 * p.w) = m1 at *
+    have hr1 : evalArg p ⟨base + 1 + 1, m1⟩ (.st (cxOf p true B dA).r1) = some (F - 5 * p.w) := by
       show evalArg p _ (.st (3 * p.w)) = _
       rw [ev_st (by unfold Prog.M; omega) (by rw [← hm1]; simp; omega), ← hm1]
       show some ((m.writeLE (3 * p.w) p.w _).readLE (3 * p.w) p.w) = _
       rw [Mem.readLE_writeLE_same _ _ _ _ (by omega)]
       rw [Nat.mod_eq_of_lt (by omega)]
     have s2 := step_hcond (m := m1) c2 hr1 (ev_imm _)
-    have hmax : pkS p.w (entryOff p.w params) body % (cxOf p true B).M % p.M = pkS p.w (entryOff p.w params) body := by
+    have hmax : pkS p.w (entryOff p.w params) body % (cxOf p true B dA).M % p.M = pkS p.w (entryOff p.w params) body := by
       show pkS p.w (entryOff p.w params) body % 256 ^ p.w % p.M = _
       unfold Prog.M; rw [Nat.mod_mod]; exact Nat.mod_eq_of_lt hpkM
     rw [hmax] at s2
